@@ -162,7 +162,7 @@ func c02World(t *testing.T, p c02Params) rt.Result {
 
 func TestC02(t *testing.T) {
 	c := rt.Get()
-	n := c.N(6000, 150000)
+	n := c.N(20000, 400000)
 	dlens := []int{-1, -1, -1, -1, -1, 0, 1, 2, 255, 4075}
 	for i := 0; i < n; i++ {
 		if !c.Mine("e2e", i) {
